@@ -100,7 +100,7 @@ package moq
 //@   effect io-write
 
 //@ func moq.Mocker.methodData -> md
-//@   props C02
+//@   props C02 C20
 //@   safety C19
 //@   modifies H:registry.Package#, M:string:*registry.Package#, H:registry.Var#, H:registry.MethodScope#.vars, A:*registry.Var#, M:string:bool#, A:template.ParamData#
 //@   requires m != nil && m.registry != nil && f != nil && isType(f.Type(), *types.Signature) && wfK(m.registry)
@@ -123,7 +123,7 @@ package moq
 //@ define sigOf(f) = as(f.Type(), *types.Signature)
 
 //@ func moq.Mocker.typeParams -> tpd
-//@   props C09
+//@   props C09 C20
 //@   safety C19
 //@   modifies H:registry.Package#, M:string:*registry.Package#, H:registry.Var#, H:registry.MethodScope#.vars, A:*registry.Var#, M:string:bool#, A:template.TypeParamData#
 //@   requires m != nil && m.registry != nil && wfK(m.registry)
